@@ -728,7 +728,8 @@ func (s *Server) Invoke(responseWriter http.ResponseWriter, invoke *interop.Invo
 	case err = <-releaseErrChan:
 		log.Debug("Invoke() release error")
 	case <-releaseSuccessChan:
-		s.Release()
+		// AwaitRelease() has already released this invocation's reservation; releasing
+		// again here could drop the reservation of a caller that arrived in between
 		log.Debug("Invoke() success")
 	}
 
